@@ -1376,6 +1376,10 @@ class VarSub(Vars):
         indices_all = super().get_ind()
         return indices_all[self.indices].flatten()
 
+    def get(self):
+
+        return np.array(super().get()).reshape(self.shape)[self.indices]
+
     def __getitem__(self, item):
 
         new_indices = self.indices[item]
